@@ -27,6 +27,7 @@ const module = "github.com/makiuchi-d/gozxing"
 
 type site struct {
 	ID    int      `json:"id"`
+	Func  string   `json:"func"`
 	Pos   string   `json:"pos"`
 	Roots []string `json:"roots,omitempty"`
 	Write bool     `json:"write,omitempty"`
@@ -203,9 +204,9 @@ func main() {
 	}
 	os.WriteFile(filepath.Join(zdir, "zzrt.go"), rt, 0o644)
 	var sb strings.Builder
-	sb.WriteString("package zzrt\n\n// generated by /verif/sched/instr\n\ntype SiteInfo struct {\n\tPos   string\n\tRoots []string\n\tWrite bool\n}\n\nvar SiteTable = []SiteInfo{\n\t{},\n")
+	sb.WriteString("package zzrt\n\n// generated by /verif/sched/instr\n\ntype SiteInfo struct {\n\tFunc  string\n\tPos   string\n\tRoots []string\n\tWrite bool\n}\n\nvar SiteTable = []SiteInfo{\n\t{},\n")
 	for _, s := range sites {
-		fmt.Fprintf(&sb, "\t{%q, %#v, %v},\n", s.Pos, s.Roots, s.Write)
+		fmt.Fprintf(&sb, "\t{%q, %q, %#v, %v},\n", s.Func, s.Pos, s.Roots, s.Write)
 	}
 	sb.WriteString("}\n")
 	os.WriteFile(filepath.Join(zdir, "sites_gen.go"), []byte(sb.String()), 0o644)
@@ -239,6 +240,7 @@ type fileCtx struct {
 	imports   map[string]string // local name -> import path
 	useUnsafe bool
 	used      bool
+	curFunc   string
 }
 
 func instrumentFile(pi *pkgInfo, af *ast.File) {
@@ -262,6 +264,16 @@ func instrumentFile(pi *pkgInfo, af *ast.File) {
 		fd, ok := d.(*ast.FuncDecl)
 		if !ok || fd.Body == nil {
 			continue
+		}
+		fc.curFunc = pi.dir + "." + fd.Name.Name
+		if fd.Recv != nil && len(fd.Recv.List) > 0 {
+			t := fd.Recv.List[0].Type
+			if st, ok := t.(*ast.StarExpr); ok {
+				t = st.X
+			}
+			if id, ok := t.(*ast.Ident); ok {
+				fc.curFunc = pi.dir + "." + id.Name + "." + fd.Name.Name
+			}
 		}
 		fc.instrumentFunc(fd.Recv, fd.Type, fd.Body)
 	}
@@ -594,7 +606,7 @@ func (fc *fileCtx) potentialWrite(s ast.Stmt) bool {
 func (fc *fileCtx) mkProbe(pos token.Pos, roots []string, write bool) ast.Stmt {
 	id := len(sites) + 1
 	p := fset.Position(pos)
-	sites = append(sites, site{ID: id, Pos: fmt.Sprintf("%s:%d", strings.TrimPrefix(p.Filename, "/repo/"), p.Line), Roots: roots, Write: write})
+	sites = append(sites, site{ID: id, Func: fc.curFunc, Pos: fmt.Sprintf("%s:%d", strings.TrimPrefix(p.Filename, "/repo/"), p.Line), Roots: roots, Write: write})
 	flags := 0
 	if len(roots) > 0 {
 		flags |= 1
